@@ -84,6 +84,8 @@ def run(case):
             R2, _ = fp.RJ(T)
             out["R2"] = hexl(R2)
             out["rec2"] = recovered(fp, T, t2)
+            # ... and the results of the first time recovered afterwards (the thermal solver recovers after all times are solved)
+            out["rec_back"] = recovered(fp, T, t)
         if "late" in case:
             # a panel added to the same object after it has been evaluated
             fluid = StubFluid({k: fl(v) for k, v in case["fluid"].items()})
